@@ -29,7 +29,7 @@ from lib.common import Broken, log
 LEVEL = "model_checking"
 
 CFG = """CONSTANTS NT = %(NT)d  NK = %(NK)d  NV = %(NV)d  NS = %(NS)d  MaxCtx = %(MaxCtx)d  MaxSet = %(MaxSet)d
-          MaxDepth = %(MaxDepth)d  MaxMap = %(MaxMap)d  MaxDrop = %(MaxDrop)d  GenDepth = %(GenDepth)d  DeepTarget = %(DeepTarget)d
+          MaxDepth = %(MaxDepth)d  MaxMap = %(MaxMap)d  MaxDrop = %(MaxDrop)d  WithEmpty = %(WithEmpty)s  GenDepth = %(GenDepth)d  DeepTarget = %(DeepTarget)d
           Hist = %(Hist)s  KeepFlags = FALSE  Dev = {}
 INIT Init
 NEXT Next
@@ -40,8 +40,9 @@ MC_TAIL = ("VIEW View\nINVARIANTS TypeOK MostRecentBinding Shadowing StackFrames
 ACTIONS = ["DoSetValue", "DoSetValues", "DoAttach", "DoDetach", "DoScopeEnter", "DoScopeExit", "DoDrop"]
 
 
-def K(NT, NK, NV, NS, MaxCtx, MaxSet, MaxDepth, MaxMap, GenDepth=0, DeepTarget=99, Hist=False, MaxDrop=0):
+def K(NT, NK, NV, NS, MaxCtx, MaxSet, MaxDepth, MaxMap, GenDepth=0, DeepTarget=99, Hist=False, MaxDrop=0, Empty=False):
     return dict(NT=NT, NK=NK, NV=NV, NS=NS, MaxCtx=MaxCtx, MaxSet=MaxSet, MaxDepth=MaxDepth, MaxMap=MaxMap, MaxDrop=MaxDrop,
+                WithEmpty="TRUE" if Empty else "FALSE",
                 GenDepth=GenDepth, DeepTarget=DeepTarget, Hist="TRUE" if Hist else "FALSE")
 
 
@@ -76,6 +77,7 @@ def mc_jobs(ctx):
     thorough = ctx.tier == "thorough"
     # (NT, NK, NV, NS, MaxCtx, MaxSet, MaxDepth, MaxMap); measured distinct states in design_notes/C10.md
     cfgs = [("values", K(1, 2, 1, 1, 3, 2, 1, 2, MaxDrop=3)),   # family of contexts, shadowing, immutability, every drop order
+            ("clear", K(1, 2, 1, 0, 3, 3, 0, 2, Empty=True)),    # keys re-bound to the empty ContextValue: consistent shadowing
             ("deep", K(1, 1, 1, 1, 2, 1, 7, 1)),                 # every detach order, depth <= 7, one thread
             ("threads", K(2, 1, 1, 1, 2, 1, 3, 1))]              # two threads interleaved
     if thorough:
@@ -119,6 +121,9 @@ WITNESSES = {
     "WitScopeDestroy": K(1, 1, 1, 1, 2, 0, 2, 1, MaxDrop=1), "WitDropChild": K(1, 2, 1, 1, 3, 3, 1, 1, MaxDrop=1),
     "WitDropLeaf": K(1, 2, 1, 1, 3, 3, 1, 1, MaxDrop=1), "WitDropParent": K(1, 2, 1, 1, 3, 3, 1, 1, MaxDrop=1),
     "WitDropMiddle": K(1, 2, 1, 1, 3, 3, 1, 1, MaxDrop=1), "WitDropAttached": K(1, 1, 1, 1, 2, 2, 2, 1, MaxDrop=1),
+    # a key re-bound to the EMPTY ContextValue hides the older binding for GetValue AND HasKey (also the active-span key)
+    "WitClearKey": K(1, 2, 1, 1, 3, 3, 1, 1, Empty=True), "WitClearKeyMap": K(1, 2, 1, 1, 3, 3, 1, 2, Empty=True),
+    "WitClearSpanKey": K(1, 1, 1, 1, 3, 2, 2, 1, Empty=True),
 }
 # witnesses found by random walks under an action constraint: name -> (constraint, DeepTarget, GenDepth)
 DEEP_WITNESSES = {"WitOooDeep": ("DeepFirst", 16, 90), "WitOooDeep2": ("DeepFirst", 33, 90),
@@ -142,7 +147,7 @@ def gen_jobs(ctx):
                                 simulate={"num": 100000, "depth": depth + 10}, seed=ctx.seed + 3, xmx="2g")
 
     def allshort():
-        k = K(1, 2, 1, 1, 3, 2, 3, 1, GenDepth=5 if thorough else 4, Hist=True, MaxDrop=2)
+        k = K(1, 2, 1, 1, 3, 2, 3, 1, GenDepth=5 if thorough else 4, Hist=True, MaxDrop=2, Empty=thorough)
         c = _cfg(ctx, "g-all", k, "CONSTRAINT Bound\nACTION_CONSTRAINT Closing\nINVARIANTS EmitAll")
         return "all", k, tlc.tlc("Context", c, rundir=ctx.rundir.path, workers=4, timeout_s=150, tag="g-all", xmx="6g")
 
@@ -153,11 +158,11 @@ def gen_jobs(ctx):
                                        simulate={"num": num, "depth": k["GenDepth"] + 20}, seed=ctx.seed * 31 + i, xmx="6g")
 
     n = 60 if thorough else 10          # per worker (4 workers)
-    sims = [(0, K(2, 3, 2, 2, 14, 8, 40, 2, GenDepth=80, DeepTarget=16, Hist=True, MaxDrop=4), n, "DeepFirst"),
-            (1, K(3, 4, 3, 2, 12, 8, 40, 2, GenDepth=60, DeepTarget=16, Hist=True, MaxDrop=6), n, ""),
+    sims = [(0, K(2, 3, 2, 2, 14, 8, 40, 2, GenDepth=80, DeepTarget=16, Hist=True, MaxDrop=4, Empty=True), n, "DeepFirst"),
+            (1, K(3, 4, 3, 2, 12, 8, 40, 2, GenDepth=60, DeepTarget=16, Hist=True, MaxDrop=6, Empty=True), n, ""),
             (2, K(1, 3, 2, 2, 16, 8, 70, 2, GenDepth=120, DeepTarget=34, Hist=True, MaxDrop=4), n // 2, "DeepFirst"),
             # grow beyond 16 / 32, unwind to <= 3, grow again, then anything (shrink-after-growth)
-            (3, K(1, 2, 2, 2, 12, 6, 40, 2, GenDepth=130, DeepTarget=17, Hist=True, MaxDrop=3), n, "DeepCycle"),
+            (3, K(1, 2, 2, 2, 12, 6, 40, 2, GenDepth=130, DeepTarget=17, Hist=True, MaxDrop=3, Empty=True), n, "DeepCycle"),
             (4, K(2, 2, 1, 2, 10, 4, 70, 2, GenDepth=200, DeepTarget=33, Hist=True, MaxDrop=2), n // 2, "DeepCycle")]
     if thorough:
         sims.append((5, K(3, 2, 2, 3, 20, 6, 70, 2, GenDepth=150, DeepTarget=20, Hist=True, MaxDrop=6), n // 2, "DeepFirst"))
@@ -343,16 +348,17 @@ def selftest(ctx, exe, insts):
     for what in ("cur", "span", "tab", "ok"):
         m = copy.deepcopy(b)
         idx = [i for i, s in enumerate(m["steps"]) if (what != "ok" or (s["op"] == "Detach" and s["ok"] != 2))
-               and (what != "tab" or s["tab"])]
+               and (what not in ("tab", "cur") or any(s["live"]))]
         if not idx:
             continue
         s = m["steps"][rnd.choice(idx)]
         if what == "cur":
-            s["cur"][0] = (s["cur"][0] + 1) % (len(s["tab"]) + 1)
+            # another identity the replayer can tell apart: the empty context or a LIVE handle
+            s["cur"][0] = rnd.choice([c for c in [0] + [i + 1 for i, lv in enumerate(s["live"]) if lv] if c != s["cur"][0]])
         elif what == "span":
             s["span"][-1] = 1 if s["span"][-1] != 1 else 2
         elif what == "tab":
-            row = rnd.choice(s["tab"])
+            row = rnd.choice([r for r, lv in zip(s["tab"], s["live"]) if lv])     # (rows of dropped handles are not re-read)
             j = rnd.randrange(len(row))
             row[j] = 1 if row[j] != 1 else 0
         else:
@@ -443,7 +449,8 @@ def record_validate(ctx, exe):
             {"kind": "trace", "events": ev[:at + 1], "at": at})
     if not ctx.violations:      # (a violation already explains missing coverage)
         for need in ("deep", "ooo_deep", "dup_ooo", "foreign", "foreign_xthread", "scope_ooo", "shadow", "regrow", "unwind_to_small",
-                     "drop_child_first", "drop_parent_first", "drop_middle", "drop_leaf_of_chain", "scope_exit_destroys"):
+                     "drop_child_first", "drop_parent_first", "drop_middle", "drop_leaf_of_chain", "scope_exit_destroys",
+                     "clear_key", "clear_key_map"):
             if agg.get(need, 0) == 0:
                 raise Broken("vacuity: no recorded execution shows condition %r" % need)
     for e in tracex.split_executions(lines)[:1]:
@@ -458,7 +465,7 @@ def run(ctx):
     ctx.assumptions += [
         "exhaustive TLC results are for the stated small constants (<= 3 contexts / 2 keys / depth <= 7 / <= 3 threads); larger instances are sampled by replay and trace validation",
         "a token is identified with the context it was created for (all the API allows to compare); Detach's boolean for an empty-context token on an empty stack is left open",
-        "SetValues maps have no duplicate keys; the empty string is not used as a key; ContextValue monostate is never stored",
+        "SetValues maps have no duplicate keys; the empty string is not used as a key; a key bound to the empty ContextValue answers like an unbound key (HasKey is documented as 'GetValue is not empty') and hides older bindings",
         "concretisation tables of harness/c10_context.cc (4 key tables incl. prefix relatives of \"active_span\", 300-byte keys, embedded NULs; 4 value tables over int64/uint64/double/shared_ptr<SpanContext>/shared_ptr<Span>)",
         "trace validation: the merged log is ordered by a ticket taken when each call returned; the GetValue/HasKey table is re-read in full after every step and logged delta-encoded",
     ]
